@@ -149,7 +149,7 @@ PLAN = {
     },
     "C03": {
         "streams": {
-            "quick": [fsp(60, 10, "C03", pipes="++;gzip++;+age+;++minisign;zstandard+pgp+pgp+smallest+memory;lz4+age+minisign+balanced;brotli++pgp+smallest;bzip2+pgp++balanced+memory;parallelgzip+age+pgp+smallest;parallelbzip2++minisign+balanced+memory;gzip+pgp+minisign+smallest;zstandard+age++balanced;lz4+++smallest+memory;brotli+age+minisign;bzip2++pgp+smallest", mode="roundtrip", rs="20,3,1,64", timeout=2400)],
+            "quick": [fsp(120, 10, "C03", pipes="++;gzip++;+age+;++minisign;zstandard+pgp+pgp+smallest+memory;lz4+age+minisign+balanced;brotli++pgp+smallest;bzip2+pgp++balanced+memory;parallelgzip+age+pgp+smallest;parallelbzip2++minisign+balanced+memory;gzip+pgp+minisign+smallest;zstandard+age++balanced;lz4+++smallest+memory;brotli+age+minisign;bzip2++pgp+smallest", mode="roundtrip", rs="20,3,1,64", timeout=2400)],
             "thorough": [fsp(8 * 3 * 3 * 3 * 2 * 2, 12, "C03", pipes=";".join("%s+%s+%s+%s+%s" % (c, e, sg, lv, ct) for c in ["", "gzip", "parallelgzip", "lz4", "zstandard", "brotli", "bzip2", "parallelbzip2"] for lv in ["fastest", "balanced", "smallest"] for e in ["", "age", "pgp"] for sg in ["", "minisign", "pgp"] for ct in ["file", "memory"]), mode="roundtrip", rs="20,1,2,3,7,64", timeout=14000)],
         },
         "generated": ["Stfs/Gen/Consts.lean (suffix tables of pkg/suffix, format lists of pkg/config)"],
@@ -158,7 +158,7 @@ PLAN = {
     },
     "C09": {
         "streams": {
-            "quick": [{"stream": "leak", "args": ["-n", "24", "-workers", "16", "-rs", "20,3", "-pipes", "+age+;+pgp+;gzip+age+minisign;zstandard+pgp+pgp;lz4+age+pgp;brotli+pgp+minisign", "-keys", "/verif/work/keys"], "timeout": 2400}],
+            "quick": [{"stream": "leak", "args": ["-n", "48", "-workers", "16", "-rs", "20,3", "-pipes", "+age+;+pgp+;gzip+age+minisign;zstandard+pgp+pgp;lz4+age+pgp;brotli+pgp+minisign", "-keys", "/verif/work/keys"], "timeout": 2400}],
             "thorough": [{"stream": "leak", "args": ["-n", "400", "-workers", "16", "-rs", "20,1,3,7", "-pipes", ";".join("%s+%s+%s" % (c, e, sg) for c in ["", "gzip", "parallelgzip", "lz4", "zstandard", "brotli", "bzip2", "parallelbzip2"] for e in ["age", "pgp"] for sg in ["", "minisign", "pgp"]), "-keys", "/verif/work/keys"], "timeout": 14000}],
         },
         "generated": ["Stfs/Gen/WritePaths.lean (pkg/operations/{archive,update,delete,move}.go: the statements before every tw.WriteHeader and every use of the tar writer; pkg/encryption/encrypt.go: EncryptHeader's replacement header; pkg/recovery/index.go: decryptHeader error handling)"],
@@ -167,7 +167,7 @@ PLAN = {
     },
     "C08": {
         "streams": {
-            "quick": [{"stream": "forge", "args": ["-n", "16", "-len", "10", "-workers", "16", "-rs", "20,3", "-pipes", "++minisign;++pgp;+age+minisign;gzip+pgp+pgp;zstandard+age+pgp;lz4+pgp+minisign", "-keys", "/verif/work/keys"], "timeout": 2400}],
+            "quick": [{"stream": "forge", "args": ["-n", "32", "-len", "10", "-workers", "16", "-rs", "20,3", "-pipes", "++minisign;++pgp;+age+minisign;gzip+pgp+pgp;zstandard+age+pgp;lz4+pgp+minisign", "-keys", "/verif/work/keys"], "timeout": 2400}],
             "thorough": [{"stream": "forge", "args": ["-n", "96", "-len", "9", "-workers", "16", "-rs", "20,3,1", "-allcuts", "-pipes", ";".join("%s+%s+%s" % (c, e, sg) for c in ["", "gzip", "zstandard"] for e in ["", "age", "pgp"] for sg in ["minisign", "pgp"]), "-keys", "/verif/work/keys"], "timeout": 14000}],
         },
         "generated": ["Stfs/Gen/Verify.lean (pkg/signature/verify.go: VerifyHeader skeleton, per-format returns of VerifyString; every caller of recovery.Index and its verifier callback; Fetch/Query verification sites and Fetch's raw-copy condition)"],
@@ -176,8 +176,8 @@ PLAN = {
     },
     "C17": {
         "streams": {
-            "quick": [fs(96, 18, "C17", mode="foreign", rs="20,3,1")],
-            "thorough": [fs(3000, 24, "C17", mode="foreign", rs="20,1,2,3,7,64", timeout=7000)],
+            "quick": [fs(240, 18, "C17", mode="foreign", rs="20,3,1")],
+            "thorough": [fs(2400, 24, "C17", mode="foreign", rs="20,1,2,3,7,64", timeout=7000)],
         },
         "generated": ["Stfs/Gen/Consts.lean (IsRoot spellings, suffix tables, STFS record keys)", "Stfs/Gen/PosArith.lean"],
         "trusted_base": BASE_TRUST,
